@@ -2,6 +2,8 @@
 
 Manual mode and single-thread start(awaitable) mode under virtual time (thread / thread-pool mode is a
 separate model on top of the same heap operators of spec/Scheduler/Scheduler.tla)."""
+import os
+
 import fastcover
 import vlib
 from framework import graph_replay
@@ -43,8 +45,8 @@ def fmt(v):
 
 
 def model(ctx, rp, cfg, tag, consts, must, max_paths=None, extra_random=0):
-    """consts: the complete constant assignment (the cfg file holds the quick-tier defaults; the same
-    names are given again here so that the header handed to the replayer always matches)"""
+    """consts: the complete constant assignment (the cfg files hold quick-tier defaults for running TLC by
+    hand; everything is given again here so that the header handed to the replayer always matches)"""
     def hdr(k, st0):
         return {"mode": consts["Mode"], "coro": bool(k % 2), "slots": consts["MaxSleeps"],
                 "interval": consts["Interval"], "nc": consts["NC"]}
@@ -81,18 +83,25 @@ def run(ctx):
         model(ctx, rp, "Scheduler_manual.cfg", "manual4", base(TPs={1, 2, 3}, Nows={1, 2, 3}, Ids={0, 1}, CancelIds={0, 1},
                                                                MaxSleeps=3, MaxHeap=4), MANUAL_ACTIONS + ["Remove"])
     # interval() generator + stop token next to ordinary sleeps
-    itv = base(TPs={1, 3}, Nows={1, 2, 3}, Ids={0, 1}, CancelIds={1}, MaxSleeps=3, MaxHeap=4, AllowRemove=False, Interval=2)
-    if q:
-        itv.update(MaxSleeps=2, MaxHeap=3)
+    itv = base(TPs={1, 3}, Nows={1, 2, 3}, Ids={0, 1}, CancelIds={1}, MaxSleeps=2, MaxHeap=3, AllowRemove=False, Interval=2)
+    if not q:
+        itv.update(MaxSleeps=3, MaxHeap=4)
     model(ctx, rp, "Scheduler_interval.cfg", "interval", itv, MANUAL_ACTIONS + ["IntervalCall", "IntervalStop"])
     # (b) start(awaitable), single thread, virtual time ------------------------------------------
     st = base(Mode="start", TPs={1, 2, 3}, Nows=set(), Ids={0, 1}, CancelIds={1}, MaxSleeps=2, MaxHeap=4,
               MaxOps=4, AllowRemove=False, NC=2)
     model(ctx, rp, "Scheduler_start.cfg", "start2", st, START_ACTIONS)
     st3 = dict(st, NC=3, MaxSleeps=3, MaxOps=5 if q else 6, TPs={1, 2})
-    model(ctx, rp, "Scheduler_start.cfg", "start3", st3, START_ACTIONS, max_paths=3000 if q else None)
-    if q:
-        ctx.exhaustive = ctx.exhaustive and True
+    model(ctx, rp, "Scheduler_start.cfg", "start3", st3, START_ACTIONS)
+    if not q:
+        # a larger space on the specification only (no replay): two identifiers, 4 sleeps pending, array of 5
+        big = base(TPs={1, 2}, Nows={1, 2}, Ids={1, 2}, CancelIds={1, 2}, MaxSleeps=4, MaxHeap=5, AllowRemove=False)
+        cfgp = os.path.join(vlib.BUILD, "C12_big.cfg")
+        vlib.write_cfg(cfgp, open(os.path.join(vlib.VERIF, "spec/Scheduler/Scheduler_manual.cfg")).read(),
+                       {k: fmt(v) for k, v in big.items()})
+        res = ctx.tlc("Scheduler", "Scheduler", cfgp, "big", coverage=False)
+        if res.violation:
+            ctx.tlc_violation(res, "Scheduler:big")
 
     ctx.assume("time points are whole seconds from a small set (ties and past values included); identifiers from a "
                "small set with reuse, nullptr included; at most 3-5 sleeps pending at the same time, array of at most 3-6 entries "
